@@ -22,6 +22,7 @@ for t in spec["theorems"]:
     types[t["lemma"]] = " ".join(m.group(1).split())
 body = "(* %s\n   This file only pins statements. *)\nFrom Amq Require Import %s.\n\n" % (spec["title"], imports)
 for t in spec["theorems"]:
+    t["doc"] = t["doc"].replace("*)", "* )")
     body += "(* %s *)\nTheorem %s : %s.\nProof. exact %s. Qed.\n\n" % (t["doc"], t["name"], types[t["lemma"]], t["lemma"])
 if spec.get("example"):
     body += spec["example"].rstrip() + "\n\n"
